@@ -92,6 +92,22 @@ func (r *runner) heap() {
 			})
 		}
 	}
+	// headers whose allocation totals differ from the in-use totals in one figure only, or hold one zero:
+	// the allocation columns are data as soon as either figure says so
+	for _, h := range hdrs {
+		if isGrowthLike(h.name) {
+			continue
+		}
+		for _, mode := range []int{3, 4, 5, 6} {
+			m := menu(stacksSmall[:2], mode)
+			if len(m) > 12 {
+				m = m[:12]
+			}
+			tuples(len(m), 2, func(ix []int) {
+				r.doc(&Doc{Fam: "heap", Hdr: h.name, Rate: h.rate, Alloc: mode, Recs: pick(m, ix)})
+			})
+		}
+	}
 	if th {
 		// three records from a smaller menu
 		saveI, saveA := inuse, allocs
